@@ -30,11 +30,29 @@ from collections.abc import Callable
 from typing import Optional
 
 # ....................{ CLASSES                            }....................
-class BeartypeInferHintContainerRecursion(object):
+class _BeartypeInferHintContainerRecursionMeta(type):
+    '''
+    Metaclass of the :class:`.BeartypeInferHintContainerRecursion` placeholder,
+    permissively matching *all* objects as instances of that placeholder.
+
+    That placeholder stands in for the unknowable hint of a container that
+    self-referentially contains itself. If that placeholder rejected that
+    container (as an ordinary class would), a hint inferred from a recursive
+    container would reject the very container it was inferred from.
+    '''
+
+    def __instancecheck__(cls, obj: object) -> bool:
+        return True
+
+
+class BeartypeInferHintContainerRecursion(
+    object, metaclass=_BeartypeInferHintContainerRecursionMeta):
     '''
     Child type hint subscripting all **recursive container type hints** (i.e.,
     parent type hints describing a container containing one or more items
     self-referentially referring to the same container).
+
+    This placeholder matches *all* objects (including that container).
     '''
 
     def __repr__(self) -> str:
